@@ -85,7 +85,11 @@ class TdlChannelProfile:
 
         aux = (np.sum(self._tap_powers_linear * self._tap_delays**2) /
                np.sum(self._tap_powers_linear))
-        self._rms_delay_spread = math.sqrt(aux - self._mean_excess_delay**2)
+        # The second central moment cannot be negative, but rounding can
+        # make the difference slightly negative when all taps have the same
+        # (non-zero) delay
+        self._rms_delay_spread = math.sqrt(
+            max(aux - self._mean_excess_delay**2, 0.0))
 
         # Sampling interval when the channel profile is discretized. You
         # can call the
